@@ -283,6 +283,8 @@ class Report:
             line += " no-failing-input-found"
         print(line, flush=True)
         self.violations.append(path)
+        if found_input:
+            self.concrete = getattr(self, "concrete", 0) + 1     # violations reported with a failing input
 
     def known(self, text: str):
         line = f"KNOWN-FINDING: property={self.prop} {text}"
